@@ -17,7 +17,7 @@ ASSUMPTIONS = [
     "'validates against its own checksum' = str(parser) with a line number, re-parsed by a fresh parser, passes validate()",
 ]
 
-ALPHABET = "GMTNXYZEFgmtnxyz0123456789+-. *;\\\r\n\t:@#(=é\x0b\x0c\x1c\x85\xa0\u2028\x00"
+ALPHABET = "GMTNXYZEFgmtnxyz0123456789+-. *;\\\r\n\t:@#(=é\x0b\x0c\x1c\x85\xa0\u2028\x00\ufeff"
 free_text = st.text(alphabet=ALPHABET, max_size=60)
 
 lead = st.sampled_from(["", "", "", " ", "  ", "   "])
@@ -53,8 +53,10 @@ structured = st.lists(st.one_of(structured_line, structured_line, structured_lin
 def strategy(tier):
     # walk: how the caller steps through the text - parseLines(text); parse(text) then parse() per line; or the first k lines
     # with parse() and the rest with parseLines() (resuming)
-    return st.tuples(st.one_of(free_text, structured, structured), st.sampled_from(["lines", "lines", "parse", "mixed"]), st.integers(1, 3)).map(
-        lambda t: {"text": t[0], "walk": t[1], "k": t[2]})
+    # now and then a long file (the short text many times over, 8 KiB and more) or a byte order mark in front
+    return st.tuples(st.one_of(free_text, structured, structured), st.sampled_from(["lines", "lines", "parse", "mixed"]), st.integers(1, 3),
+                     st.sampled_from([1] * 60 + [120, 400]), st.sampled_from([""] * 12 + ["\ufeff"])).map(
+        lambda t: {"text": t[4] + (t[0] * t[3] if len(t[0]) * t[3] < 40000 else t[0] * (40000 // max(1, len(t[0])))), "walk": t[1], "k": t[2]})
 
 
 def walk(parser, text, how, k):
